@@ -84,7 +84,17 @@ pub fn build(
         return Ok(None);
     };
 
-    // TODO: verify that `ty` actually makes sense for an enum
+    // The base type ends up in `#[repr(..)]`, which takes the predefined integer types only.
+    const INTEGERS: [&str; 10] = [
+        "u8", "u16", "u32", "u64", "u128", "i8", "i16", "i32", "i64", "i128",
+    ];
+    let is_integer = matches!(
+        &ty,
+        Type::Raw(path) if path.len() == 1 && path.last().is_some_and(|s| INTEGERS.contains(&s.as_str()))
+    );
+    if !is_integer {
+        anyhow::bail!("the base type `{ty}` of enum `{resolvee_path}` is not a predefined integer type");
+    }
     let Some(size) = ty.size(&semantic.type_registry) else {
         return Ok(None);
     };
